@@ -203,9 +203,7 @@ func TestC07(t *testing.T) {
 		c.Req = genRequest(r, first, r.Intn(2) == 0, true)
 		eval(c)
 	}
-	if rec.Get("probe_cap_and_cap_plus_1") < 300 || rec.Get("memory_only_decrement_checks") < 100 {
-		rec.Inconclusive("too few probes (%d cap/cap+1, %d memory-only decrements)", rec.Get("probe_cap_and_cap_plus_1"), rec.Get("memory_only_decrement_checks"))
-	}
+	// minimum-observation thresholds are run-level (all batches merged): MIN_OBSERVED in checks_table.py, applied by the driver
 }
 
 func normNodes(m map[string]*nodeState) []string {
@@ -444,9 +442,7 @@ func TestC08(t *testing.T) {
 	for i := 0; i < n; i++ {
 		run(genBkHistory(r, env))
 	}
-	if rec.Get("conservation_checks") < 3000 || rec.Get("reallocs_on_numa_node") < 100 || rec.Get("ops/rollback-realloc") < 100 {
-		rec.Inconclusive("too few observations: %d conservation checks, %d reallocs on NUMA nodes", rec.Get("conservation_checks"), rec.Get("reallocs_on_numa_node"))
-	}
+	// minimum-observation thresholds are run-level (all batches merged): MIN_OBSERVED in checks_table.py, applied by the driver
 }
 
 func genBkHistory(r *rand.Rand, env *vkit.Env) *bkHistory {
